@@ -131,7 +131,22 @@ structure ClaimLp where
   entry : Nat
   uh : List (Nat × Nat)
   th : List (Nat × Nat)
+  /-- change points of every other user of the LP token (their sum with `uh` is independent of the
+      contract's own total `th`) -/
+  others : List (List (Nat × Nat)) := []
   farms : List (Nat × Nat × Nat × String × Nat)
+
+/-- the user's share of a span when the total is taken as the *sum of all users' weights* instead of
+    the contract's recorded total: if every user is paid at most this, an epoch's payments add up to
+    at most its emission (`C07Split.epoch_shares_sum_le_rate`) -/
+def spanRewardOfUsers (rate start end_ : Nat) (uh : List (Nat × Nat)) (others : List (List (Nat × Nat)))
+    (first until_ : Nat) : Nat :=
+  ((List.range (until_ + 1 - first)).map fun i =>
+    let e := first + i
+    if start ≤ e ∧ e < end_ then
+      let t := Spec.weightAt uh e + (others.map fun h => Spec.weightAt h e).foldl (· + ·) 0
+      if t = 0 then 0 else rate * Spec.weightAt uh e / t
+    else 0).foldl (· + ·) 0
 
 /-- C06/C07: an accepted claim pays, per farm and per denom, exactly the ledger's entitlement for
     the epochs it covers — never more (C06), never less (C07); `claimed_amount` moves by exactly what
@@ -144,6 +159,11 @@ def monClaim (until_ : Nat) (cursor : Option Nat) (lps : List ClaimLp)
   let expectedOf (d : String) : Nat := ((perFarm.filter (·.1 == d)).map (·.2.1)).foldl (· + ·) 0
   let c1 : List (Bool × String) := perFarm.map fun x => (decide (x.2.2 ≤ x.2.1), "C06-overpaid")
   let c2 : List (Bool × String) := perFarm.map fun x => (decide (x.2.1 ≤ x.2.2), "C07-underpaid")
+  -- C06, all users together: nobody is paid more than their share of the *sum of the users' weights*
+  let c0 : List (Bool × String) := lps.flatMap fun l =>
+    l.farms.map fun (rate, start, end_, _, cd) =>
+      (decide (cd ≤ spanRewardOfUsers rate start end_ l.uh l.others (Spec.firstEpoch cursor l.entry) until_),
+       "C06-exceeds-emission-share")
   let c3 : List (Bool × String) := paid.flatMap fun x =>
     [(decide (x.2.1 ≤ (expectedOf x.1 : Int)), "C06-overpaid"),
      (decide ((expectedOf x.1 : Int) ≤ x.2.1), "C07-underpaid"),
@@ -152,6 +172,6 @@ def monClaim (until_ : Nat) (cursor : Option Nat) (lps : List ClaimLp)
     | none => []
     | some q => paid.map fun x =>
         (((q.find? (·.1 == x.1)).map (·.2)).getD 0 == x.2.1.toNat, "C07-query-ne-claim")
-  firstFail (c1 ++ c2 ++ c3 ++ c4)
+  firstFail (c1 ++ c2 ++ c3 ++ c4 ++ c0)
 
 end MantraDex
